@@ -343,7 +343,7 @@ func TestC13Truncations(t *testing.T) {
 	col := evid.New("C13", "truncations", "")
 	defer col.Flush()
 	// corpus: the repository's example scripts
-	files, _ := filepath.Glob("/repo/_examples/scripts/*")
+	files, _ := filepath.Glob(repoRoot() + "/_examples/scripts/*")
 	n := 0
 	for _, f := range files {
 		b, err := os.ReadFile(f)
